@@ -443,7 +443,7 @@ type C02DialsCase struct {
 	// library's versions must keep following the defaults as they were when
 	// Config was called
 	ScribbleDefaultsAt int `json:"scribble_defaults_at,omitempty"`
-	ScribbleAt   int         `json:"scribble_at"` // scribble over the version current after this many reports
+	ScribbleAt         int `json:"scribble_at"` // scribble over the version current after this many reports
 }
 
 func genC02Dials(t *rapid.T) C02DialsCase {
